@@ -1,5 +1,5 @@
 """C04 - exact volume bookkeeping per real well, including trough aliasing."""
-from harness import common, lwops
+from harness import common, lwops, wlops
 
 ID = "C04"
 BOUNDS = {
@@ -23,6 +23,11 @@ def shards(tier):
                     shapes = ["scalar-id", "list-scalar"]
                 out.append(dict(geo=geo, op=op, shapes=shapes, k=(3 if tier == "quick" else 4) if shapes == ["list"] else 2,
                                 c2d=2 if tier == "quick" else 3))
+    # additions and removals made by a transfer (k triples, repeated wells, broadcasting of a single source / destination)
+    for dev in ("evo", "fluent"):
+        for sg, dg in [("p2x2", "t3x2"), ("t3x2", "p2x2"), ("p2x2", "p2x2")]:
+            for pb in ("source", "destination"):
+                out.append(dict(op="transfer", dev=dev, sgeo=sg, dgeo=dg, k=3 if tier == "quick" else 4, steps=1, partition_by=pb, washes=[1], ncand=2, wl_max=common.BIG * 2, geo=sg))
     return out
 
 
@@ -39,6 +44,11 @@ def witnesses(tier):
 
 
 def scenario(ctx, p):
+    if p["op"] == "transfer":
+        W = wlops.build(ctx, p)
+        ctx.ctx["W"] = W
+        wlops.run(ctx, W)
+        return W
     lab, g, pre = common.make_labware(ctx, "L", p["geo"], filled=False)
     wells, vols, pairs, shape = lwops.build_args(ctx, lab, p)
     ctx.ctx.update(lab=lab, pre={k[1]: v for k, v in pre.items()}, pairs=pairs, shape=shape, args=(wells, vols))
@@ -65,6 +75,19 @@ def judge(ctx, p, outcome):
         return
     c = ctx.ctx
     ns = common.rt()
+    if p["op"] == "transfer":
+        if kind != "ok":
+            ctx.reach("exc:" + type(val).__name__ if isinstance(val, ns.VolumeViolationException) else "exc:other")
+            return
+        ctx.reach("ok")
+        W = c["W"]
+        want = dict(W.pre)
+        for rack, wid, sign, v in W.named:
+            key = (rack, W.geo[rack].real_of(wid))
+            want[key] = want[key] + sign * v
+        ctx.prove(ctx.all_of([ctx.eq(W.labs[r]._volumes[w], x) for (r, w), x in want.items()]),
+                  "C04: after a transfer the volumes are not initial + added - removed per real well (triples paired element-wise)")
+        return
     lab = c["lab"]
     if c["pairs"] is None:
         # incompatible lengths must be rejected and leave the state unchanged
@@ -80,6 +103,9 @@ def judge(ctx, p, outcome):
 
 def describe(ctx, p, outcome):
     c = ctx.ctx
+    if p["op"] == "transfer":
+        from harness import C01
+        return C01.describe(ctx, p, outcome)
     lab = c.get("lab")
     if lab is None:
         return ""
